@@ -214,3 +214,219 @@ def wire_msg(r, maxrr=6, rawmax=40, lower=True, nq=None):
         for _ in range(r.randint(0, maxrr)):
             m[sec].append(wire_rr(r, pool, rawmax, lower=lower))
     return m
+
+
+# ---------------------------------------------------------------------------
+# zone-file text (master file syntax).  Renders structured records into text using the
+# documented variants of RFC 1035 section 5; knows nothing about how the text is parsed.
+
+import ipaddress
+
+ZT_V4 = ["10.0.0.1", "192.168.1.20", "0.0.0.0", "255.255.255.255", "127.0.0.1"]
+ZT_V6 = ["2001:db8::1", "::1", "::", "fe80::1:2", "2001:db8:0:1:2:3:4:5"]
+
+
+def zt_lits():
+    es = []
+    for a in ZT_V4:
+        es.append({"tok": [ord(c) for c in a], "v": 4, "canon": a})
+    for a in ZT_V6:
+        ip = ipaddress.IPv6Address(a)
+        for f in {ip.compressed, ip.exploded, ip.compressed.upper()}:
+            es.append({"tok": [ord(c) for c in f], "v": 6, "canon": ip.compressed})
+    return es
+
+
+def scan_lits(text, base):
+    """register every blank-separated token of `text` that is an IP literal (so that texts not produced by the
+    renderer, e.g. the repository's own zone files, can be read by the specification)"""
+    known = {tuple(e["tok"]) for e in base}
+    out = list(base)
+    for tok in set(text.replace("(", " ").replace(")", " ").replace(";", " ").replace('"', " ").split()):
+        if "%" in tok or len(tok) > 45:
+            continue
+        cps = tuple(ord(c) for c in tok)
+        if cps in known:
+            continue
+        try:
+            ip = ipaddress.ip_address(tok)
+        except ValueError:
+            continue
+        if ip.version == 6 and ip.ipv4_mapped is not None:
+            continue
+        out.append({"tok": list(cps), "v": ip.version, "canon": ip.compressed})
+        known.add(cps)
+    return out
+
+
+def zt_escape(octets, quoted, r):
+    s = ""
+    for o in octets:
+        c = chr(o)
+        if o < 32 or o > 126:
+            s += "\\%03d" % o
+        elif c in '"\\':
+            s += "\\" + c
+        elif not quoted and (c in ';() ' or c == '\t'):
+            s += "\\" + c if r.random() < 0.7 else "\\%03d" % o
+        elif r.random() < 0.05:
+            s += "\\%03d" % o
+        elif r.random() < 0.03 and not c.isdigit():
+            s += "\\" + c
+        else:
+            s += c
+    return '"' + s + '"' if quoted else s
+
+
+def zt_name(r, labels):
+    alphabet = "abcdefghijklmnopqrstuvwxyz0123456789-_"
+    return [r.choice("abcdefghijklmnopqrstuvwxyz") + "".join(r.choice(alphabet) for _ in range(r.choice([0, 1, 2, 4, 7])))
+            for _ in range(labels)]
+
+
+def zt_render_name(r, name, origin):
+    """name, origin: lists of labels. returns text (relative to origin when possible, absolute otherwise)"""
+    if origin is not None and name == origin and r.random() < 0.6:
+        return "@"
+    if origin is not None and len(name) > len(origin) and name[len(name) - len(origin):] == origin and r.random() < 0.6 and origin:
+        return ".".join(name[:len(name) - len(origin)])
+    if origin is not None and not origin and name and r.random() < 0.3:
+        return ".".join(name)
+    return ".".join(name) + "." if name else "."
+
+
+def zt_rdata(r, rtype, names, origin):
+    def nm():
+        return zt_render_name(r, r.choice(names), origin)
+
+    def octs():
+        n = r.choice([0, 1, 3, 8, 20])
+        pool = list(range(97, 123)) + [32, 34, 59, 40, 41, 92, 64, 42, 36, 9, 0, 127, 200, 255]
+        return [r.choice(pool) for _ in range(n)]
+    if rtype == "A":
+        return r.choice(ZT_V4)
+    if rtype == "AAAA":
+        ip = ipaddress.IPv6Address(r.choice(ZT_V6))
+        return r.choice([ip.compressed, ip.exploded, ip.compressed.upper()])
+    if rtype in NAME_TYPES:
+        return nm()
+    if rtype == "MX":
+        return "%d %s" % (r.choice([0, 10, 65535]), nm())
+    if rtype == "SRV":
+        return "%d %d %d %s" % (r.randint(0, 9), r.randint(0, 9), r.choice([53, 443, 65535]), nm())
+    if rtype == "MINFO":
+        return "%s %s" % (nm(), nm())
+    if rtype == "SOA":
+        return "%s %s %d %d %d %d %d" % (nm(), nm(), r.randint(0, 99999), 7200, 900, r.choice([86400, 999999999]),
+                                         r.choice([0, 60, 300, 3600]))
+    o = octs()
+    if not o:
+        return '""'
+    q = r.random() < 0.5
+    return zt_escape(o, q, r)
+
+
+def zt_layout(r, toks):
+    """join tokens: plain, tabs, parentheses (spaced or tight), trailing comment"""
+    sep = r.choice([" ", "\t", "  ", " \t"])
+    x = r.random()
+    if x < 0.6 or len(toks) < 3:
+        line = sep.join(toks)
+    elif x < 0.8:
+        k = r.randint(1, len(toks) - 1)
+        brk = r.choice(["\n  ", "\n\t", " ", "\n ; inner comment\n  "])
+        line = sep.join(toks[:k]) + " ( " + brk.join(toks[k:]) + " )"
+    else:
+        k = r.randint(1, len(toks) - 1)
+        line = sep.join(toks[:k]) + " (" + "\n\t".join(toks[k:]) + ")"
+    if r.random() < 0.2:
+        line += r.choice([" ; comment", ";c", " ; with ( and \" inside"])
+    return line
+
+
+def zt_file(r, fault=None):
+    """a well-formed zone file (or, with `fault`, a single-fault corruption of one)"""
+    apex = zt_name(r, r.choice([0, 1, 2]))
+    auth = r.random() < 0.7
+    if not auth and r.random() < 0.7:
+        apex = []
+    names = [zt_name(r, r.randint(1, 3)) + apex for _ in range(4)] + [apex] + [zt_name(r, 2)]
+    lines = []
+    origin = None
+    if r.random() < 0.8 or fault == "no_origin":
+        origin = list(apex)
+        lines.append("$ORIGIN " + (".".join(apex) + "." if apex else "."))
+    prev_owner = None
+    have_ttl = False
+    types = ["A", "AAAA", "MX", "SRV", "MINFO", "TXT", "TXT", "HINFO", "NULL", "WKS"] + NAME_TYPES
+    recs = []
+    if auth:
+        recs.append(("SOA", apex, False))
+    for _ in range(r.randint(0, 8)):
+        owner = r.choice(names)
+        if auth and not (len(owner) >= len(apex) and owner[len(owner) - len(apex):] == apex):
+            owner = zt_name(r, 1) + apex
+        recs.append((r.choice(types), owner, r.random() < 0.15))
+    if fault == "two_soa" and auth:
+        recs.append(("SOA", apex, False))
+    if fault == "wild_soa":
+        recs.append(("SOA", apex, True))
+    if fault == "outside" and auth and apex:
+        recs.append(("A", zt_name(r, 2), False))
+    for i, (t, owner, wild) in enumerate(recs):
+        if r.random() < 0.1:
+            lines.append(r.choice(["", "; a comment line", "   ", "\t; indented comment"]))
+        if r.random() < 0.1 and i > 0:
+            new_origin = r.choice(names)
+            origin = list(new_origin)
+            lines.append("$ORIGIN " + (".".join(origin) + "." if origin else "."))
+        toks = []
+        omit_owner = prev_owner == (owner, wild) and r.random() < 0.5
+        if not omit_owner:
+            o = zt_render_name(r, owner, origin)
+            if wild:
+                o = "*" if (o == "@") else "*." + o
+            toks.append(o)
+        ttl = str(r.choice([0, 1, 60, 300, 3600, 86400, 604800]))
+        x = r.random()
+        if t == "SOA":
+            mid = r.choice([["IN"], [ttl, "IN"], ["IN", ttl], []])
+        elif not have_ttl or x < 0.5:
+            mid = r.choice([[ttl, "IN"], ["IN", ttl], [ttl]])
+        else:
+            mid = r.choice([["IN"], []])
+        if fault == "no_ttl" and i == 0 and t != "SOA":
+            mid = r.choice([["IN"], []])
+        if fault == "class" and i == len(recs) - 1:
+            mid = [ttl, r.choice(["CH", "HS", "CS", "in"])]
+        if omit_owner and not mid:
+            mid = [ttl]            # keep the entry unambiguous: a bare "<type> <rdata>" is allowed but start with a blank
+            toks.append(" ")
+        toks += mid
+        toks.append(t)
+        toks += zt_rdata(r, t, names, origin).split(" ") if t not in OCTET_TYPES else [zt_rdata(r, t, names, origin)]
+        toks = [x for x in toks if x != " "]
+        line = zt_layout(r, toks)
+        if omit_owner:
+            line = r.choice([" ", "\t"]) + line
+        lines.append(line)
+        prev_owner = (owner, wild)
+        have_ttl = True
+    if fault == "include":
+        lines.insert(r.randint(0, len(lines)), "$INCLUDE other.zone")
+    if fault == "paren":
+        lines.append("x 300 IN A 10.0.0.1 )")
+    if fault == "escape":
+        lines.append("x 300 IN TXT abc\\25")
+    if fault == "badnum":
+        lines.append("x 30x IN A 10.0.0.1")
+    if fault == "badaddr":
+        lines.append("x 300 IN A 10.0.0")
+    if fault == "nonascii":
+        lines.append("café 300 IN A 10.0.0.1")
+    nl = r.choice(["\n", "\n", "\r\n"])
+    return nl.join(lines) + (nl if r.random() < 0.8 else "")
+
+
+ZT_FAULTS = ["include", "class", "two_soa", "wild_soa", "outside", "no_ttl", "paren", "escape", "badnum", "badaddr",
+             "nonascii", "no_origin"]
